@@ -87,6 +87,7 @@ def run_property(prop, tier, seed, jobs=None, only=None, verbose=False):
                 if open_ and not bad_inv and not os.environ.get("PYVC_G_STRICT"):
                     r = dict(r, error=f"unsupported: no unbounded-arity proof found ({open_[0].split('/', 1)[1]} not discharged)", obls=[])
         if r["error"] and r.get("optional") and r["error"].startswith("unsupported"):
+            r = dict(r, obls=[])          # a partial symbolic-arity proof proves nothing for all arities
             notes.append(f"NOTE {prop} {r['family']}: unbounded-arity proof not applicable to the current code shape "
                          f"({r['error'][:120]}); the bounded-arity families decide this method")
         elif r["error"]:
